@@ -504,9 +504,9 @@ theorem firstPerTargetAux_covers (seen : List Nat) (l : List SvcPort) (sp : SvcP
             simp only [List.mem_cons, not_or]; exact ⟨fun e => hat e.symm, hs⟩)
           exact ⟨sp', List.mem_cons_of_mem _ hm, he⟩
 
-/-- ... whatever the services, the ingress listeners and the merge flag. -/
+/-- ... whatever the services, the ingress listeners and the merge flag (repaired `needPerPort...`). -/
 theorem declared_have_configs (services ingress : List SvcPort) (merge : Bool) :
-    DeclaredHaveConfigs (chainConfigs services ingress merge) (declaredPorts services ingress) := by
+    DeclaredHaveConfigs (chainConfigs services ingress merge) (declaredPorts services ingress merge) := by
   intro p hp
   unfold declaredPorts at hp
   unfold chainConfigs
@@ -514,11 +514,25 @@ theorem declared_have_configs (services ingress : List SvcPort) (merge : Bool) :
   · simp only [hi, if_true, List.mem_map] at hp ⊢
     obtain ⟨sp, hsp, rfl⟩ := hp
     exact firstPerTargetAux_covers [] services sp hsp (by simp)
-  · simp only [hi, Bool.false_eq_true, if_false, List.mem_map] at hp ⊢
-    obtain ⟨sp, hsp, rfl⟩ := hp
-    cases merge
-    · exact firstPerTargetAux_covers [] ingress sp hsp (by simp)
-    · exact firstPerTargetAux_covers [] _ sp (List.mem_append_right _ hsp) (by simp)
+  · simp only [hi, Bool.false_eq_true, if_false] at hp ⊢
+    cases merge with
+    | false =>
+      simp only [Bool.false_and, Bool.false_eq_true, if_false, List.mem_map] at hp ⊢
+      obtain ⟨sp, hsp, rfl⟩ := hp
+      exact firstPerTargetAux_covers [] ingress sp hsp (by simp)
+    | true =>
+      simp only [Bool.true_and, if_true, List.mem_append, List.mem_map] at hp ⊢
+      rcases hp with ⟨sp, hsp, rfl⟩ | ⟨sp, hsp, rfl⟩
+      · exact firstPerTargetAux_covers [] _ sp (List.mem_append_right _ hsp) (by simp)
+      · by_cases hany : ingress.any (fun i => i.target == sp.target) = true
+        · obtain ⟨i, hi', hit⟩ := List.any_eq_true.mp hany
+          have hit' : i.target = sp.target := by simpa using hit
+          obtain ⟨sp', hm, he⟩ := firstPerTargetAux_covers [] _ i (List.mem_append_right
+            (services.filter (fun s => !(ingress.any (fun i => i.target == s.target)))) hi') (by simp)
+          exact ⟨sp', hm, he.trans hit'⟩
+        · have hmemf : sp ∈ services.filter (fun s => !(ingress.any (fun i => i.target == s.target))) :=
+            List.mem_filter.mpr ⟨hsp, by simp only [Bool.not_eq_true] at hany; simp [hany]⟩
+          exact firstPerTargetAux_covers [] _ sp (List.mem_append_left _ hmemf) (by simp)
 
 /-- The fixture of the `inbound` stream: a service whose port (81) differs from its target port (8081),
     and a second service in conflict on target port 8080. -/
